@@ -559,6 +559,19 @@ func (t *trzszTransfer) getNewTimeout() <-chan time.Time {
 	return nil
 }
 
+// checkDataSize refuses a data chunk that can't be genuine: a chunk is never longer than the
+// agreed buffer size, or twice that after escaping.
+func (t *trzszTransfer) checkDataSize(size int64) error {
+	maxSize := t.transferConfig.MaxBufSize
+	if maxSize <= 0 || maxSize > 1024*1024*1024 {
+		maxSize = 1024 * 1024 * 1024
+	}
+	if size < 0 || size > maxSize*2 {
+		return simpleTrzszError("Invalid data size: %d", size)
+	}
+	return nil
+}
+
 func (t *trzszTransfer) recvData() ([]byte, error) {
 	timeout := t.getNewTimeout()
 	if !t.transferConfig.Binary {
@@ -566,6 +579,9 @@ func (t *trzszTransfer) recvData() ([]byte, error) {
 	}
 	size, err := t.recvInteger("DATA", false, timeout)
 	if err != nil {
+		return nil, err
+	}
+	if err := t.checkDataSize(size); err != nil {
 		return nil, err
 	}
 	data, err := t.buffer.readBinary(int(size), timeout)
